@@ -143,7 +143,10 @@ CanonSplit(sys) ==
     LET G == Split(sys)
         order == SetToSortSeq(G, LAMBDA g, h : MinOf(g.rx) < MinOf(h.rx))
     IN  [k \in 1..Len(order) |-> PartOf(sys, order[k].rx, order[k].ss)]
-SpeciesMap(Op(_)) == [s \in AllSpecies |-> Op(s)]
+(* per-species queries are asked for every substance of the system and for one name ("Zz")   *)
+(* that is not a substance of any system                                                       *)
+Absent == "Zz"
+SpeciesMap(sys, Op(_)) == [s \in Subst(sys) \cup {Absent} |-> Op(s)]
 
 QueryExp(sys, kind, arg) ==
     CASE kind = "shape" -> [rx |-> sys.rx, ss |-> sys.ss]
@@ -154,8 +157,8 @@ QueryExp(sys, kind, arg) ==
                      unaffected |-> SortSpecies(c.unaffected), nonparticipating |-> SortSpecies(c.nonparticipating)],
             eqdef |-> NoDup(sys),
             eq |-> SortPairs(IdentifyEquilibria(sys)),
-            part |-> SpeciesMap(LAMBDA s : SortInts(Participation(sys, s))),
-            eff |-> SpeciesMap(LAMBDA s : SortPairs(Effect(sys, s)))]
+            part |-> SpeciesMap(sys, LAMBDA s : SortInts(Participation(sys, s))),
+            eff |-> SpeciesMap(sys, LAMBDA s : SortPairs(Effect(sys, s)))]
       [] kind = "subset" ->
            [yes |-> SortInts(SubsetYes(sys, arg)), no |-> SortInts(RIdx(sys) \ SubsetYes(sys, arg))]
       [] kind = "conv" ->
@@ -166,7 +169,7 @@ QueryExp(sys, kind, arg) ==
       [] kind = "bounds" ->
            [ub |-> [i \in 1..Len(sys.ss) |-> UpperBound(sys, arg, sys.ss[i])]]
       [] kind = "yields" ->
-           [k |-> arg, y |-> [s \in SysKeys(sys) |-> YieldsOf(sys, arg, s)], keys |-> SortSpecies(SysKeys(sys))]
+           [k |-> arg.k]      \* arg.y = N^T arg.k is what the decomposition is asked for
 
 (* two-system queries: arg = index of the second system *)
 PairTags(x, y) == SortPairs(({1} \X RIdx(x)) \cup ({2} \X RIdx(y)))
@@ -178,7 +181,7 @@ Query2Exp(x, y, kind) ==
             dup |-> SortPairs({2} \X (RIdx(y) \ ConcatNew(x, y)))]
 
 ------------------------------------------------------------------------------
-Init == ws = <<>> /\ pend = <<>> /\ hist = <<>> /\ out = [op |-> "none"] /\ phase = "run"
+Init == ws = <<>> /\ pend = <<>> /\ hist = <<>> /\ out = [op |-> "none", fresh |-> {}] /\ phase = "run"
 
 (* substance list of a new system *)
 MakeSubst(rxs, mode, given) ==
@@ -205,7 +208,8 @@ Make(rxs, mode, given, comp) ==
        IN  /\ (comp # <<>> => ToSet(ss) \subseteq DOMAIN comp)
            /\ ws' = IF refused THEN ws ELSE Append(ws, sys)
            /\ out' = [op |-> "make", raised |-> refused, ss |-> IF refused THEN <<>> ELSE ss,
-                      nr |-> IF refused THEN 0 ELSE Len(rxs)]
+                      nr |-> IF refused THEN 0 ELSE Len(rxs),
+                      fresh |-> IF refused THEN {} ELSE {Len(ws) + 1}]
            /\ phase' = IF refused /\ TerminalQueries THEN "done" ELSE "run"
     /\ hist' = Append(hist, [op |-> "Make", rx |-> rxs, mode |-> mode, given |-> given, comp |-> comp])
     /\ pend' = <<>>
@@ -226,7 +230,7 @@ DoSplit(i, parts) ==
     /\ phase = "run" /\ IsSys(i)
     /\ SplitMatches(ws[i], parts)
     /\ ws' = ws \o [k \in 1..Len(parts) |-> SubSys(ws[i], parts[k], ws[i].checked)]
-    /\ out' = [op |-> "split", n |-> Len(parts)]
+    /\ out' = [op |-> "split", n |-> Len(parts), fresh |-> (Len(ws) + 1)..(Len(ws) + Len(parts))]
     /\ hist' = Append(hist, [op |-> "DoSplit", i |-> i])
     /\ UNCHANGED <<pend, phase>>
 
@@ -240,7 +244,7 @@ DoSubset(i, p, yes, no) ==
     /\ SubsetPartOK(ws[i], yes, SubsetYes(ws[i], p))
     /\ SubsetPartOK(ws[i], no, RIdx(ws[i]) \ SubsetYes(ws[i], p))
     /\ ws' = ws \o <<SubSys(ws[i], yes, FALSE), SubSys(ws[i], no, FALSE)>>
-    /\ out' = [op |-> "subset"]
+    /\ out' = [op |-> "subset", fresh |-> {Len(ws) + 1, Len(ws) + 2}]
     /\ hist' = Append(hist, [op |-> "DoSubset", i |-> i, p |-> p])
     /\ UNCHANGED <<pend, phase>>
 
@@ -258,27 +262,28 @@ DoAdd(i, j, how, src, ss) ==
     /\ AddMatches(ws[i], ws[j], src, ss)
     /\ ws' = IF how = "add" THEN Append(ws, SumSys(ws[i], ws[j], src, ss))
              ELSE [ws EXCEPT ![i] = SumSys(ws[i], ws[j], src, ss)]
-    /\ out' = [op |-> "sum"]
+    /\ out' = [op |-> "sum", fresh |-> IF how = "add" THEN {Len(ws) + 1} ELSE {i}]
     /\ hist' = Append(hist, [op |-> "DoAdd", i |-> i, j |-> j, how |-> how])
     /\ UNCHANGED <<pend, phase>>
 
 (* queries (pure observations) *)
 QueryDefined(sys, kind, arg) ==
     CASE kind = "bounds" -> sys.comp # <<>> /\ DOMAIN arg = Subst(sys)
-      [] kind = "yields" -> FullRank(sys) /\ DOMAIN arg = RIdx(sys)
+      [] kind = "yields" -> /\ FullRank(sys) /\ DOMAIN arg.k = RIdx(sys) /\ DOMAIN arg.y = SysKeys(sys)
+                            /\ \A s \in SysKeys(sys) : arg.y[s] = YieldsOf(sys, arg.k, s)
       [] kind = "conv"   -> Len(sys.ss) > 0 /\ DOMAIN arg.d = Subst(sys) /\ Len(arg.a) = Len(sys.ss) /\ arg.vs \in Subst(sys)
       [] kind = "subset" -> TRUE
       [] kind \in {"shape", "graph"} -> TRUE
       [] OTHER -> FALSE
 Query(i, kind, arg) ==
     /\ phase = "run" /\ IsSys(i) /\ QueryDefined(ws[i], kind, arg)
-    /\ out' = [op |-> "query", kind |-> kind, exp |-> QueryExp(ws[i], kind, arg)]
+    /\ out' = [op |-> "query", kind |-> kind, exp |-> QueryExp(ws[i], kind, arg), fresh |-> {}]
     /\ hist' = Append(hist, [op |-> "Query", i |-> i, kind |-> kind, arg |-> arg])
     /\ phase' = IF TerminalQueries THEN "done" ELSE "run"
     /\ UNCHANGED <<ws, pend>>
 Query2(i, j, kind) ==
     /\ phase = "run" /\ IsSys(i) /\ IsSys(j) /\ kind \in {"add", "eq", "concat"}
-    /\ out' = [op |-> "query", kind |-> kind, exp |-> Query2Exp(ws[i], ws[j], kind)]
+    /\ out' = [op |-> "query", kind |-> kind, exp |-> Query2Exp(ws[i], ws[j], kind), fresh |-> {}]
     /\ hist' = Append(hist, [op |-> "Query2", i |-> i, j |-> j, kind |-> kind])
     /\ phase' = IF TerminalQueries THEN "done" ELSE "run"
     /\ UNCHANGED <<ws, pend>>
@@ -309,7 +314,7 @@ GivenOf(mode) ==
 PickRx == \E k \in 1..Len(Catalog) :
     /\ phase = "run" /\ Len(pend) < MaxRx /\ NMakes < MaxSys /\ NOps = 0
     /\ (AllowDup \/ \A m \in 1..Len(pend) : pend[m] # k)
-    /\ pend' = Append(pend, k) /\ UNCHANGED <<ws, hist, out, phase>>
+    /\ pend' = Append(pend, k) /\ out' = [op |-> "pick", fresh |-> {}] /\ UNCHANGED <<ws, hist, phase>>
 GenMake == \E mode \in Modes :
     /\ pend # <<>> /\ NMakes < MaxSys
     /\ LET given == GivenOf(mode)
@@ -340,14 +345,17 @@ GenQuery ==
        \/ "subset" \in QueryKinds /\ \E p \in Preds : Query(LastSys, "subset", p)
        \/ "conv" \in QueryKinds /\ \E a \in ConvArgs(ws[LastSys]) : Query(LastSys, "conv", a)
        \/ "bounds" \in QueryKinds /\ \E c \in [Subst(ws[LastSys]) -> ConcGrid] : Query(LastSys, "bounds", c)
-       \/ "yields" \in QueryKinds /\ \E k \in [RIdx(ws[LastSys]) -> YieldK] : Query(LastSys, "yields", k)
+       \/ "yields" \in QueryKinds /\ \E k \in [RIdx(ws[LastSys]) -> YieldK] :
+              Query(LastSys, "yields", [k |-> k, y |-> [s \in SysKeys(ws[LastSys]) |-> YieldsOf(ws[LastSys], k, s)]])
 GenQuery2 == \E i \in 1..Len(ws), j \in 1..Len(ws), kind \in QueryKinds \cap {"add", "eq", "concat"} :
     Ready /\ Query2(i, j, kind)
 
 Next == PickRx \/ GenMake \/ GenSplit \/ GenSubset \/ GenAdd \/ GenQuery \/ GenQuery2
 
 ------------------------------------------------------------------------------
-(* invariants *)
+(* invariants; each is checked on the systems created or changed by the last step (`fresh`):  *)
+(* every system of the workspace was fresh once                                                *)
+Fresh == out.fresh
 Pairwise(S, R(_, _)) == \A a, b \in S : a # b => R(a, b)
 SplitPartitionsSys(sys) ==
     LET G == Split(sys) IN
@@ -356,24 +364,25 @@ SplitPartitionsSys(sys) ==
     /\ Pairwise(G, LAMBDA g, h : g.rx \cap h.rx = {})                \* reaction lists disjoint
     /\ Pairwise(G, LAMBDA g, h : g.ss \cap h.ss = {})                \* substance sets disjoint
     /\ \A g \in G : g.ss = KeysOf(sys, g.rx)
-    /\ \A g \in G : \A D \in (SUBSET g.rx) \ {{}, g.rx} :             \* each group is connected
-           \E i \in D, j \in g.rx \ D : Shares(sys, i, j)
-SplitPartitions == \A i \in 1..Len(ws) : SplitPartitionsSys(ws[i])
+    /\ \A g \in G : Cardinality(g.rx) <= 10 =>                       \* each group is connected:
+           \A D \in (SUBSET g.rx) \ {{}, g.rx} :                       \* no way to cut it in two
+               \E i \in D, j \in g.rx \ D : Shares(sys, i, j)
+SplitPartitions == \A i \in Fresh : SplitPartitionsSys(ws[i])
 
 PermuteSys(sys, p) == [sys EXCEPT !.rx = [k \in RIdx(sys) |-> sys.rx[p[k]]]]
 SplitOrderInvariantSys(sys) ==
     \A p \in Permutations(RIdx(sys)) :
         { [rx |-> { p[k] : k \in g.rx }, ss |-> g.ss] : g \in Split(PermuteSys(sys, p)) } = Split(sys)
-SplitOrderInvariant == \A i \in 1..Len(ws) : NR(ws[i]) <= 5 => SplitOrderInvariantSys(ws[i])
+SplitOrderInvariant == \A i \in Fresh : NR(ws[i]) <= 5 => SplitOrderInvariantSys(ws[i])
 
 CategoriesPartitionSys(sys) ==
     LET c == Categorize(sys)
         parts == <<c.accumulated, c.depleted, c.unaffected, c.nonparticipating, Mixed(sys)>>
     IN  /\ UNION { parts[k] : k \in 1..5 } = Subst(sys)
         /\ \A a, b \in 1..5 : a # b => parts[a] \cap parts[b] = {}
-CategoriesPartition == \A i \in 1..Len(ws) : CategoriesPartitionSys(ws[i])
+CategoriesPartition == \A i \in Fresh : CategoriesPartitionSys(ws[i])
 
-WorkspaceWellFormed == \A i \in 1..Len(ws) : WellFormed(ws[i])
+WorkspaceWellFormed == \A i \in Fresh : WellFormed(ws[i])
 
 (* no non-negative state (on the grid) with the same element totals exceeds the bound *)
 BoundDominatesFeasibleStates ==
@@ -388,7 +397,7 @@ YieldsUnique ==
     (out.op = "query" /\ out.kind = "yields") =>
         LET h == hist[Len(hist)]  sys == ws[h.i] IN
         \A k \in [RIdx(sys) -> YieldK] :
-            (\A s \in SysKeys(sys) : YieldsOf(sys, k, s) = YieldsOf(sys, h.arg, s)) => k = h.arg
+            (\A s \in SysKeys(sys) : YieldsOf(sys, k, s) = h.arg.y[s]) => k = h.arg.k
 
 View == <<ws, pend, out, phase, NMakes, NOps>>
 
@@ -401,6 +410,6 @@ Cls == IF LastEv.op = "Make" THEN (IF out.raised THEN "make-refused" ELSE "make-
        ELSE LastEv.kind
 CaseRec == [in |-> [hist |-> hist], exp |-> out, cls |-> Cls]
 (* a case is a finished history, or a system just made (its constructor outcome) *)
-EmitNow == Done \/ (hist # <<>> /\ LastEv.op = "Make" /\ pend = <<>> /\ out.op = "make")
+EmitNow == Done \/ (hist # <<>> /\ out.op = "make")
 Emit == EmitNow => PrintT(<<"CASE", ToJson(CaseRec)>>)
 =============================================================================
